@@ -1,10 +1,242 @@
-(* C16 — buffer views behave like the byte string they represent (work in progress). *)
+(* C16 — Buffer views behave like the byte string they represent.
+   Only the property theorems; each is closed by [exact] of a lemma of Proofs/BufferP.v and
+   followed by Print Assumptions.  Model: Model/Buffer.v (slice headers over a heap of mutable
+   header arrays); vocabulary ([vv_wf], [vv_bytes], [str_trim], [str_cap], [bstep], [both_step],
+   [wf_world], [wabs], [frame], [reslice], [wf_p], [pspec_step]) is defined at the end of the model.
+
+   Clause -> theorem
+   * "trim from the front / cap the length / remove the first chunk ... yields exactly the bytes
+     and size that the same operations yield on a plain byte string, regardless of how the
+     content is split into chunks" (chunks of any length incl. 0, any count in Z):
+       C16_vv_trimFront, C16_vv_capLength, C16_vv_removeFirst (one call: result is Ok, i.e. no
+       panic; well-formedness size = sum of chunk lengths preserved; bytes refined; only the
+       object's own header array is written), C16_vv_size, C16_vv_toView ("flatten"),
+       C16_vv_first, C16_newVectorisedView, C16_view_toVectorisedView;
+       Views(): [vv_bytes] IS the concatenation of the bytes of Views() (definition of the
+       abstraction), C16_newVectorisedView shows Views() returns the views passed in.
+   * "any sequence of operations ... clone": C16_history_refines (fold_left over every history
+       of TrimFront / CapLength / RemoveFirst / Clone on an original and any number of clones:
+       the objects behave like a family of independent byte strings, sizes in step).
+   * "a clone is unaffected by later trimming or capping of the original": C16_clone_independent
+       (any buffer that does not alias the original's header array), C16_untouched_by_others
+       (no history on OTHER objects changes an object), and C16_clone_aliased_buffer_refuted
+       (the disjointness hypothesis is needed: b.Clone(a.Views()) corrupts a).
+   * "a capped view cannot be re-extended": C16_cap_not_reextendable (every chain of legal
+       re-slices after CapLength n reaches only the first n bytes), C16_cap_two_index_refuted
+       (the two-index form would expose more), C16_view_capLength_partial / _panic_iff /
+       _beyond_len_refuted (View.CapLength n shows the first n bytes for n <= len; for
+       len < n <= cap Go does not panic and the view GROWS into its spare capacity: full
+       statement refuted, partial under n <= len).
+   * View-level "operations on a view": C16_view_trimFront, C16_view_nextBytes (result or Panic
+       exactly when Go panics).
+   * "prepend": C16_prepend_call (every k in Z), C16_prependable_refines (every history),
+       C16_newPrependable, C16_newPrependableFromView.
+   * non-vacuity: C16_history_example, C16_cap_example, C16_prependable_example. *)
 From Coq Require Import ZArith Bool List.
 From NP Require Import Model.Buffer Proofs.BufferP.
 Import ListNotations.
 Open Scope Z_scope.
 
-Theorem C16_slice3_bounds : forall v i j k r,
-  slice3 v i j k = Ok r -> 0 <= i <= j /\ j <= k <= vcap v.
-Proof. exact slice3_ok_iff. Qed.
-Print Assumptions C16_slice3_bounds.
+(* ---------------------------------------------------------------- one VectorisedView, one call *)
+
+Theorem C16_vv_trimFront : forall h vv n,
+  vv_wf h vv ->
+  exists h' vv', vv_trimFront h vv n = Ok (h', vv') /\ vv_wf h' vv' /\
+    vv_bytes h' vv' = str_trim n (vv_bytes h vv) /\
+    harr (views vv') = harr (views vv) /\ frame h h' (harr (views vv)).
+Proof. exact vv_trimFront_spec. Qed.
+Print Assumptions C16_vv_trimFront.
+
+Theorem C16_vv_capLength : forall h vv n,
+  vv_wf h vv ->
+  exists h' vv', vv_capLength h vv n = Ok (h', vv') /\ vv_wf h' vv' /\
+    vv_bytes h' vv' = str_cap n (vv_bytes h vv) /\
+    harr (views vv') = harr (views vv) /\ frame h h' (harr (views vv)).
+Proof. exact vv_capLength_spec. Qed.
+Print Assumptions C16_vv_capLength.
+
+(* RemoveFirst drops exactly the bytes that First() shows *)
+Theorem C16_vv_removeFirst : forall h vv,
+  vv_wf h vv ->
+  vv_wf h (vv_removeFirst h vv) /\
+  vv_bytes h vv = vbytes (vv_first h vv) ++ vv_bytes h (vv_removeFirst h vv) /\
+  vv_bytes h (vv_removeFirst h vv) =
+    str_trim (Z.of_nat (length (vbytes (vv_first h vv)))) (vv_bytes h vv) /\
+  harr (views (vv_removeFirst h vv)) = harr (views vv).
+Proof. exact vv_removeFirst_wf. Qed.
+Print Assumptions C16_vv_removeFirst.
+
+Theorem C16_vv_size : forall h vv,
+  vv_wf h vv -> vv_size vv = Z.of_nat (length (vv_bytes h vv)).
+Proof. exact vv_size_spec. Qed.
+Print Assumptions C16_vv_size.
+
+Theorem C16_vv_toView : forall h vv,
+  vv_wf h vv -> exists u, vv_toView h vv = Ok u /\ wf_view u /\ vbytes u = vv_bytes h vv.
+Proof. exact vv_toView_spec. Qed.
+Print Assumptions C16_vv_toView.
+
+Theorem C16_vv_first : forall h vv,
+  vv_wf h vv -> vv_bytes h vv = vbytes (vv_first h vv) ++ vv_bytes h (vv_removeFirst h vv).
+Proof. exact vv_first_spec. Qed.
+Print Assumptions C16_vv_first.
+
+Theorem C16_newVectorisedView : forall h sz vs,
+  Forall wf_view vs ->
+  exists h' vv, newVectorisedView h sz vs = (h', vv) /\
+    vv_views h' vv = vs /\ vv_bytes h' vv = concat (map vbytes vs) /\ vv_size vv = sz /\
+    (sz = sumlen vs -> vv_wf h' vv) /\ harr (views vv) = length h /\ h' = h ++ [vs].
+Proof. exact newVectorisedView_spec. Qed.
+Print Assumptions C16_newVectorisedView.
+
+Theorem C16_view_toVectorisedView : forall h v,
+  wf_view v ->
+  exists h' vv, view_toVectorisedView h v = (h', vv) /\ vv_wf h' vv /\
+    vv_bytes h' vv = vbytes v /\ vv_size vv = Z.of_nat (length (vbytes v)).
+Proof. exact view_toVectorisedView_spec. Qed.
+Print Assumptions C16_view_toVectorisedView.
+
+(* ---------------------------------------------------------------- histories over an original and its clones *)
+
+Theorem C16_history_refines : forall ops w,
+  wf_world w ->
+  exists w', fst (fold_left both_step ops (Ok w, wabs w)) = Ok w' /\ wf_world w' /\
+             wabs w' = snd (fold_left both_step ops (Ok w, wabs w)) /\
+             map vv_size (wobjs w') = map (fun b => Z.of_nat (length b)) (wabs w').
+Proof. exact world_refines. Qed.
+Print Assumptions C16_history_refines.
+
+Theorem C16_clone_independent : forall h vv buf h' c,
+  vv_wf h vv -> hs_ok h buf -> harr buf <> harr (views vv) -> vv_clone h vv buf = (h', c) ->
+  wf_world (mkW h' [vv; c]) /\ wabs (mkW h' [vv; c]) = [vv_bytes h vv; vv_bytes h vv] /\
+  vv_size c = vv_size vv.
+Proof. exact clone_independent. Qed.
+Print Assumptions C16_clone_independent.
+
+Theorem C16_untouched_by_others : forall ops w i,
+  wf_world w -> (i < length (wobjs w))%nat ->
+  (forall op, In op ops -> wop_writes op <> Some i) ->
+  exists w', wrun w ops = Ok w' /\ wf_world w' /\ nth_error (wabs w') i = nth_error (wabs w) i.
+Proof. exact world_untouched. Qed.
+Print Assumptions C16_untouched_by_others.
+
+Theorem C16_clone_aliased_buffer_refuted :
+  exists h a b h' c, vv_wf h a /\ vv_wf h b /\ vv_clone h b (views a) = (h', c) /\
+    vv_bytes h a = [1; 2; 3; 4; 5] /\ vv_bytes h' a = [6; 7; 8; 3; 4; 5].
+Proof. exact clone_into_aliased_buffer_refuted. Qed.
+Print Assumptions C16_clone_aliased_buffer_refuted.
+
+Theorem C16_history_example :
+  exists w ops w', wf_world w /\ wrun w ops = Ok w' /\
+    wabs w = [[1; 2; 3; 4; 5]] /\ wabs w' = [[2; 3]; [1; 2; 3; 4]; [3; 4]].
+Proof. exact world_nonvacuous. Qed.
+Print Assumptions C16_history_example.
+
+(* ---------------------------------------------------------------- a single View *)
+
+Theorem C16_view_trimFront : forall v n,
+  wf_view v ->
+  (0 <= n <= vlen v ->
+     exists v', view_trimFront v n = Ok v' /\ wf_view v' /\
+                vbytes v' = skipn (Z.to_nat n) (vbytes v) /\
+                vlen v' = vlen v - n /\ vcap v' = vcap v - n /\
+                vfull v' = skipn (Z.to_nat n) (vfull v)) /\
+  (view_trimFront v n = Panic <-> n < 0 \/ vlen v < n).
+Proof. exact view_trimFront_spec. Qed.
+Print Assumptions C16_view_trimFront.
+
+Theorem C16_view_capLength_partial : forall v n,
+  wf_view v -> 0 <= n <= vlen v ->
+  exists v', view_capLength v n = Ok v' /\ wf_view v' /\
+             vbytes v' = firstn (Z.to_nat n) (vbytes v) /\
+             vlen v' = n /\ vcap v' = n /\ vfull v' = vbytes v'.
+Proof. exact view_capLength_ok. Qed.
+Print Assumptions C16_view_capLength_partial.
+
+Theorem C16_view_capLength_panic_iff : forall v n,
+  view_capLength v n = Panic <-> n < 0 \/ vcap v < n.
+Proof. exact view_capLength_panic_iff. Qed.
+Print Assumptions C16_view_capLength_panic_iff.
+
+Theorem C16_view_capLength_beyond_len_refuted :
+  exists v n v', wf_view v /\ vlen v < n /\ view_capLength v n = Ok v' /\
+                 vbytes v = [1; 2] /\ vbytes v' = [1; 2; 3].
+Proof. exact view_capLength_beyond_len_refuted. Qed.
+Print Assumptions C16_view_capLength_beyond_len_refuted.
+
+Theorem C16_view_nextBytes : forall v n,
+  wf_view v ->
+  (0 <= n <= vlen v ->
+     exists r v', view_nextBytes v n = Ok (r, v') /\ wf_view v' /\
+                  vbytes r = firstn (Z.to_nat n) (vbytes v) /\
+                  vbytes v' = skipn (Z.to_nat n) (vbytes v)) /\
+  (view_nextBytes v n = Panic <-> n < 0 \/ vlen v < n).
+Proof. exact view_nextBytes_spec. Qed.
+Print Assumptions C16_view_nextBytes.
+
+Theorem C16_cap_not_reextendable : forall v n rs r,
+  wf_view v -> 0 <= n <= vlen v ->
+  fold_left reslice rs (view_capLength v n) = Ok r ->
+  exists a, 0 <= a /\ a + vcap r <= n /\ vlen r <= vcap r /\
+            vfull r = seg a (vcap r) (firstn (Z.to_nat n) (vbytes v)).
+Proof. exact cap_not_reextendable. Qed.
+Print Assumptions C16_cap_not_reextendable.
+
+Theorem C16_cap_two_index_refuted :
+  exists v n rs r, wf_view v /\ 0 <= n <= vlen v /\
+    fold_left reslice rs (view_capLength_twoIndex v n) = Ok r /\
+    firstn (Z.to_nat n) (vbytes v) = [1] /\ vbytes r = [1; 2; 3].
+Proof. exact cap_two_index_refuted. Qed.
+Print Assumptions C16_cap_two_index_refuted.
+
+Theorem C16_cap_example :
+  exists v n rs r, wf_view v /\ 0 <= n <= vlen v /\ rs <> [] /\
+    fold_left reslice rs (view_capLength v n) = Ok r /\ vbytes r = [3].
+Proof. exact cap_not_reextendable_nonvacuous. Qed.
+Print Assumptions C16_cap_example.
+
+(* ---------------------------------------------------------------- Prependable *)
+
+Theorem C16_prepend_call : forall p k,
+  wf_p p ->
+  (usedIdx p < k -> p_prepend p k = (p, PNil)) /\
+  (0 <= k <= usedIdx p ->
+     exists r, p_prepend p k = (mkP (pbuf p) (usedIdx p - k), PRegion r) /\
+               wf_view r /\ vlen r = k /\ vcap r = k /\ varr r = varr (pbuf p) /\
+               voff r = voff (pbuf p) + (usedIdx p - k)) /\
+  (k < 0 -> snd (p_prepend p k) = PPanic /\ usedIdx (fst (p_prepend p k)) = usedIdx p - k).
+Proof. exact p_prepend_spec. Qed.
+Print Assumptions C16_prepend_call.
+
+Theorem C16_prependable_refines : forall ops p v0,
+  wf_p p -> p_view p = Ok v0 ->
+  Forall (fun op => Z.of_nat (length (snd op)) = fst op) ops ->
+  let p' := fold_left p_step ops p in
+  let st := fold_left pspec_step ops (usedIdx p, []) in
+  wf_p p' /\ usedIdx p' = fst st /\
+  exists v, p_view p' = Ok v /\ vbytes v = concat (rev (snd st)) ++ vbytes v0 /\
+            p_usedLength p' = Z.of_nat (length (concat (rev (snd st)))) + p_usedLength p.
+Proof. exact prependable_refines. Qed.
+Print Assumptions C16_prependable_refines.
+
+Theorem C16_newPrependable : forall size,
+  0 <= size ->
+  exists p v, newPrependable size = Ok p /\ wf_p p /\ usedIdx p = size /\
+              p_view p = Ok v /\ vbytes v = [] /\ p_usedLength p = 0.
+Proof. exact newPrependable_spec. Qed.
+Print Assumptions C16_newPrependable.
+
+Theorem C16_newPrependableFromView : forall v,
+  wf_view v ->
+  let p := newPrependableFromView v in
+  wf_p p /\ usedIdx p = 0 /\ exists v', p_view p = Ok v' /\ vbytes v' = vbytes v.
+Proof. exact newPrependableFromView_spec. Qed.
+Print Assumptions C16_newPrependableFromView.
+
+Theorem C16_prependable_example :
+  exists p ops v, newPrependable 6 = Ok p /\
+    fold_left pspec_step ops (6, []) = (1, [[7; 8]; [5; 6; 9]]) /\
+    p_view (fold_left p_step ops p) = Ok v /\ vbytes v = [5; 6; 9; 7; 8] /\
+    p_usedLength (fold_left p_step ops p) = 5.
+Proof. exact prependable_nonvacuous. Qed.
+Print Assumptions C16_prependable_example.
